@@ -55,6 +55,13 @@ impl BigInt
     }
 
 
+    pub fn is_identical(&self, other: &BigInt) -> bool
+    {
+        self.bigint == other.bigint &&
+        self.size == other.size
+    }
+
+
     pub fn min_size(&self) -> usize
     {
         if self.bigint.sign() == num_bigint::Sign::NoSign
